@@ -15,7 +15,12 @@ Streams (all random choices from ctx.rng):
             parenthesis, also when the call starts its statement, on the right of assignments, as arguments) and
             "method-call" (a method of a class inlined at call sites whose receivers are attribute chains of depth
             1-4; CallInfo.read's argument list is compared inside Coq with Receiver.read_args).
-  variable  straight-line modules over  x = e / print(e, ...)  with sums, products, parentheses; the variable is read
+            The body may read names of the defining module: a constant, a helper function, names bound by imports
+            inside try/except or if/else; client modules may already import such a name from the defining module,
+            under its own name or under an alias.  References other than calls (`hh = f`, stored, passed along) in the
+            defining or the current module, mostly with only_current (+ remove): must be refused.
+  variable  (also: functions above the assignment read the variable textually before it; oracle only)
+            straight-line modules over  x = e / print(e, ...)  with sums, products, parentheses; the variable is read
             in different operand positions, its operands are sometimes reassigned, it is sometimes assigned twice
             (refusal); the module after the change is parsed back and compared inside Coq with Expr.inline_variable;
             the side conditions of C04_variable_subst are evaluated in Coq and by a Python mirror; same oracle.
@@ -211,7 +216,7 @@ def indent_block(stmts, pad="    "):
     return [pad + line for st in stmts for line in st.split("\n")]
 
 
-def gen_method(rng, force_sites=None, shape=None, rich=False, current_in_client=False):
+def gen_method(rng, force_sites=None, shape=None, rich=False, current_in_client=False, current_remove=False):
     """shape: None (main stream: arguments are single products over host names that are not names of the
     function, parameters are not reassigned), or one of the known defect shapes
     "capture" (an argument mentions a parameter/local name of the function), "reassign" (the body assigns a
@@ -228,7 +233,7 @@ def gen_method(rng, force_sites=None, shape=None, rich=False, current_in_client=
         returns = False
     if shape == "dead-after-used-return" or rich:
         returns = True
-    use_global = rng.random() < 0.3 or shape == "import-capture"
+    use_global = rng.random() < 0.45 or shape == "import-capture"
     local = rng.random() < 0.4
     body = []
     if shape == "reassign":
@@ -240,8 +245,18 @@ def gen_method(rng, force_sites=None, shape=None, rich=False, current_in_client=
     if local:
         body.append("t = %s" % L.show_sum(gen_body_sum(rng, names)))
         body.append("print(t)")
+    # names of the defining module that the body reads: a constant, a helper function, a name bound by an import
+    # that is not a plain top-level statement (inside try/except, inside if/else)
+    gnames = []
     if use_global:
-        body.append("print(%s + K)" % rng.choice(names))
+        pool = ["K"] if shape == "import-capture" else ["K", "hp", "jj", "mth"]
+        gnames = ["K"] if rng.random() < 0.4 else rng.sample(pool, rng.choice([1, 1, 2]) if len(pool) > 1 else 1)
+        if shape == "import-capture" and "K" not in gnames:
+            gnames.append("K")
+        for g in gnames:
+            p = rng.choice(names)
+            body.append({"K": "print(%s + K)", "hp": "print(hp(%s))", "jj": "print(jj.dumps([%s]))",
+                         "mth": "print(mth.floor(%s))"}[g] % p)
     bound = []
     if shape == "binders":
         for kind in rng.sample(CLEAN_BINDERS, rng.choice([1, 1, 2])):
@@ -272,16 +287,41 @@ def gen_method(rng, force_sites=None, shape=None, rich=False, current_in_client=
         sites_of[1 if (current_in_client and s < 2) else rng.randrange(nmod)].append(s)
     files = {}
     collide = rng.random() < 0.3
+    if shape == "non-call" and (current_remove or rng.random() < 0.6):
+        nsites = 1
+        sites_of = [[] for _ in range(nmod)]
+        sites_of[rng.randrange(nmod)].append(0)
+    # the module holding the non-call reference: the defining one or one with a call site
+    noncall_mod = rng.choice([0] + [m for m in range(nmod) if sites_of[m]]) if shape == "non-call" else None
     for m in range(nmod):
         lines = []
         style = None
+        galias = {}
         if m == 0:
             lines += ["K = 9"] + (BOX.split("\n") if rich else []) + (CTX.split("\n") if "ww" in bound else [])
             lines += DECOS.split("\n") if ndeco else []
+            if "hp" in gnames:
+                lines += ["def hp(v):", "    return v + 1000", ""]
+            if "jj" in gnames:
+                lines += ["try:", "    import json as jj", "except ImportError:", "    jj = None"]
+            if "mth" in gnames:
+                lines += ["if K:", "    import math as mth", "else:", "    mth = None"]
         else:
             # a module without call sites rarely imports the function by name (see SIG_IMPORT_ONLY)
             style = rng.choice(["from", "import"]) if (sites_of[m] or rng.random() < 0.15) else "import"
-            lines += ["from %s import %s" % (DEFMOD, FNAME) if style == "from" else "import %s" % DEFMOD]
+            imported = [FNAME] if style == "from" else []
+            # the client may already import, from the same module, a name the inlined body is going to need:
+            # under its own name or under an alias (used by the client itself below)
+            for g in gnames:
+                r = rng.random()
+                if shape is None and r < 0.25:
+                    imported.append(g)
+                    galias[g] = g
+                elif shape is None and r < 0.6:
+                    imported.append("%s as %s_x" % (g, g))
+                    galias[g] = g + "_x"
+            lines += ["from %s import %s" % (DEFMOD, ", ".join(imported))] if imported else []
+            lines += ["import %s" % DEFMOD] if style == "import" else []
         lines += ["%s = %d" % (v, HOSTVAL[v]) for v in HOSTV]
         if shape == "import-capture" and m > 0:
             lines += ["K = 1"]
@@ -301,11 +341,17 @@ def gen_method(rng, force_sites=None, shape=None, rich=False, current_in_client=
             lines += ["    " + b for b in body] + ["", ""]
             # the definition is followed by another one (what is left of a removed definition would land on it)
             lines += ["def after_f():", "    print('after')", "", ""]
-            if shape == "non-call":
-                lines += ["hh = %s" % FNAME]
         func = FNAME if (m == 0 or style == "from") else "%s.%s" % (DEFMOD, FNAME)
+        if shape == "non-call" and m == noncall_mod:
+            # the function is also referenced other than by a call: bound to another name, stored, passed along
+            lines += [rng.choice(["hh = %s", "hh = [%s]", "print(callable(%s))", "hh = dict(cb=%s)"]) % func]
+        prev_args, prev_wrap = None, False
         for s in sites_of[m]:
             pos, kws = gen_site(rng, params, s)
+            repeated = prev_args is not None and shape is None and rng.random() < 0.3
+            if repeated:
+                pos, kws = prev_args        # the same call text again, in the other kind of scope of the module
+            prev_args = (list(pos), list(kws))
             if shape != "capture" and cvar in names and rng.random() < 0.6:
                 # identity binding: the host variable named like a parameter is passed to that parameter
                 j = names.index(cvar)
@@ -338,7 +384,9 @@ def gen_method(rng, force_sites=None, shape=None, rich=False, current_in_client=
                 lines += ["dd = {%s}" % ", ".join("'%s': %d" % (n, 7 + j) for j, (n, _) in enumerate(params))]
                 call = "%s(**dd)" % func
             stmts = site_statements(rng, s, call, returns, rich)
-            if rng.random() < (0.5 if bound else 0.3):
+            wrap = (not prev_wrap) if repeated else rng.random() < (0.5 if bound else 0.3)
+            prev_wrap = wrap
+            if wrap:
                 # host function; its own locals named like the names bound in the body are used after the call
                 pre = ["%s = %d" % (b, 70 + s) for b in hbound]
                 post = ["print('hl', %s)" % ", ".join(hbound)] if hbound else []
@@ -347,6 +395,9 @@ def gen_method(rng, force_sites=None, shape=None, rich=False, current_in_client=
                 lines += stmts
         if cvar:
             lines += ["print('%s', %s)" % (cvar, cvar)]
+        for g, al in sorted(galias.items()):      # the client uses what it imported itself
+            lines += [{"K": "print('own', %s)", "hp": "print('own', %s(1))", "jj": "print('own', %s.dumps(1))",
+                       "mth": "print('own', %s.floor(1.5))"}[g] % al]
         if hbound:
             lines += ["print('hm', %s)" % ", ".join(hbound)]
         if m == 0:
@@ -356,7 +407,7 @@ def gen_method(rng, force_sites=None, shape=None, rich=False, current_in_client=
     remove = rng.random() < (0.8 if ndeco else 0.6)
     obj = {"kind": "method", "files": files, "entry": "main.py", "remove": remove, "only_current": False,
            "at": ["mod0.py", files["mod0.py"].index("def %s(" % FNAME) + 4]}
-    if rng.random() < 0.2 or current_in_client:
+    if rng.random() < (0.6 if shape == "non-call" else 0.2) or current_in_client or current_remove:
         # only the current occurrence; the definition may go only when it is the only one
         cands = [(fn, s) for fn in sorted(files) if fn != "main.py" for s in obj_sites(obj, files[fn])]
         # prefer a module in which other call sites stay behind (they keep needing the definition and its import)
@@ -366,6 +417,9 @@ def gen_method(rng, force_sites=None, shape=None, rich=False, current_in_client=
         obj["only_current"] = True
         obj["at"] = [fn, s["name_offset"]]
         obj["remove"] = remove and len(cands) == 1
+        if shape == "non-call" and len(cands) == 1:
+            # the other reference is in the defining module or in the current one: both are visited when remove is set
+            obj["remove"] = (current_remove or rng.random() < 0.8) and (noncall_mod == 0 or "mod%d.py" % noncall_mod == fn)
     return obj
 
 
@@ -897,7 +951,10 @@ def guest_shapes(obj):
     node = d["node"]
     body_text = "\n".join(l[4:] if l.startswith("    ") else l for l in
                           "\n".join(src.split("\n")[node.body[0].lineno - 1:node.end_lineno]).split("\n"))
-    body = body_program(body_text) or []
+    body = body_program(body_text)
+    if body is None:
+        # statements outside the grammar (calls of helpers, attribute access, blocks) are skipped, the others kept
+        body = [st for line in body_text.split("\n") for st in (body_program(line) or [])]
     names = [n for n, _ in d["params"]]
     assigned = {st[1] for st in body if st[0] == "assign"}
     guest = set(names) | assigned
@@ -1077,6 +1134,32 @@ def gen_variable(rng, client=None, only_current=False):
     return obj
 
 
+def gen_variable_early(rng):
+    """a once-assigned module-level variable that is read, textually BEFORE its assignment, in functions defined
+    above it (called after it); the value is a single product, so every read position is safe; oracle only"""
+    prog = ["%s = %d" % (v, 3 + i) for i, v in enumerate(VPOOL)]
+    nf = rng.choice([1, 1, 2])
+    for j in range(nf):
+        e = L.show_sum(gen_vsum(rng, VPOOL + [VX, VX, "k"], nterms=rng.choice([1, 2])))
+        if VX not in re.findall(r"[a-z]+", e):
+            e += " + " + VX
+        prog += ["", "", "def early%d(k):" % j, "    return %s" % e] if rng.random() < 0.6 else \
+                ["", "", "def early%d(k):" % j, "    print(%s)" % e, "    return k"]
+    prog += ["", ""]
+    rhs = L.show_sum(gen_vsum(rng, VPOOL, nterms=1))
+    if rng.random() < 0.3:
+        rhs = str(rng.randint(10, 999))
+    prog.append("%s = %s" % (VX, rhs))
+    for j in range(nf):
+        prog.append("print(early%d(%d))" % (j, 2 + j))
+    if rng.random() < 0.6:
+        prog.append("print(%s)" % L.show_sum(gen_vsum(rng, VPOOL + [VX], nterms=2)))
+    prog.append("print(%s)" % ", ".join(VPOOL))
+    src = "\n".join(prog) + "\n"
+    return {"kind": "variable", "early": True, "files": {"mod0.py": src}, "entry": "mod0.py", "remove": rng.random() < 0.75,
+            "only_current": False, "at": ["mod0.py", src.index("\n%s = " % VX) + 1], "name": VX}
+
+
 def client_reads(obj):
     """the print expressions of the client module with the imported variable written as a plain name"""
     src = obj["files"].get("mod1.py")
@@ -1229,7 +1312,7 @@ MCODES = {1: "header bindings differ from the model", 2: "generator state after 
 
 
 def report(ctx, obj, res, mismatch, ofail):
-    replay_obj = {k: obj[k] for k in ("kind", "files", "entry", "remove", "only_current", "at", "name", "order", "method", "mkind", "fname", "shape") if k in obj}
+    replay_obj = {k: obj[k] for k in ("kind", "files", "entry", "remove", "only_current", "at", "name", "order", "method", "mkind", "fname", "shape", "early", "splice") if k in obj}
     replay_obj["result"] = res.get("files")
     if res.get("model"):
         replay_obj["model"] = res["model"]
@@ -1401,6 +1484,21 @@ def check_variables(ctx, objs):
         if res["before"][0] != 0:
             ctx.count("variable:generated program does not run (skipped)")
             continue
+        if obj.get("early"):
+            # not modelled (functions above the assignment read the variable): oracle + every read is replaced and
+            # exactly the assignment line goes (or stays)
+            ctx.count("variable:read textually before the assignment (oracle only)")
+            ctx.case(("variable-early", obj["files"]["mod0.py"], obj["remove"]), nontrivial=res["refused"] is None)
+            ofail = res["oracle"]
+            if ofail is None and res["refused"] is None:
+                na = len(re.findall(r"\b%s\b" % obj["name"], res["files"]["mod0.py"]))
+                if na != (0 if obj["remove"] else 1):
+                    ofail = "%d occurrences of the name are left (remove=%s)" % (na, obj["remove"])
+                elif len(res["files"]["mod0.py"].split("\n")) != len(obj["files"]["mod0.py"].split("\n")) - (1 if obj["remove"] else 0):
+                    ofail = "number of lines changes by other than the assignment line"
+            if ofail:
+                report(ctx, obj, res, None, ofail)
+            continue
         term, problem, prog = variable_case(obj, res)
         progs[i] = prog
         if obj["only_current"]:
@@ -1517,6 +1615,9 @@ def run(ctx):
     for _ in range(3):
         mobjs.append(gen_method(rng, current_in_client=True))
         mobjs[-1]["shape"] = "current-in-client"
+    for _ in range(3):               # references other than calls, mostly with only_current (+ remove)
+        mobjs.append(gen_method(rng, shape="non-call", current_remove=True))
+        mobjs[-1]["shape"] = "non-call"
     mobjs.append(gen_methodcall(rng, mkind="classmethod-instance"))
     mobjs[-1]["shape"] = "classmethod-instance"
     for _ in range(nm):
@@ -1550,6 +1651,9 @@ def run(ctx):
         k = rng.random()
         if k < 0.08:
             vobjs.append(gen_variable(rng, only_current=True))
+            continue
+        if k < 0.18:
+            vobjs.append(gen_variable_early(rng))
             continue
         vobjs.append(gen_variable(rng, client=None if k < 0.75 else "plain" if k < 0.93 else "import-capture"))
     check_variables(ctx, vobjs)
